@@ -48,6 +48,8 @@ func c09sched(c *core.Ctx) {
 		{name: "PUBLISH and close at once", segments: [][]*refcodec.Packet{{q0("d1")}}, data: 1},
 		{name: "PUBLISH, half a packet and close at once", segments: [][]*refcodec.Packet{{q0("d1")}}, raw: []byte{0x30, 0x0a, 0x00}, data: 1},
 		{name: "PUBLISH, reserved packet type", segments: [][]*refcodec.Packet{{q0("d1")}}, raw: []byte{0xF0, 0x00}, data: 1},
+		{name: "PUBLISH, DISCONNECT header announcing a body that never comes, close at once", segments: [][]*refcodec.Packet{{q0("d1")}}, raw: []byte{0xE0, 0x02}, data: 1},
+		{name: "PUBLISH, DISCONNECT with a reserved flag, close at once", segments: [][]*refcodec.Packet{{q0("d1")}}, raw: []byte{0xE1, 0x00}, data: 1},
 	}
 	for _, tl := range tails {
 		for _, wq := range []byte{0, 1} {
